@@ -113,6 +113,13 @@ class PartialFn:
         self.fn, self.args, self.kwargs = fn, list(args), dict(kwargs)
 
 
+class SymSet:
+    """a set given by its membership predicate over Val terms: {k | pred(k)} (keys views, set comprehensions, differences)"""
+
+    def __init__(self, pred, label="set"):
+        self.pred, self.label = pred, label
+
+
 class StarArg:
     """*seq in a call where seq is a heap sequence of unknown length (only assumed library contracts accept it)"""
 
